@@ -65,6 +65,9 @@ func (o sop) String() string {
 	case "purge":
 		return fmt.Sprintf("purge(%s)", storeBoxes[o.MB])
 	case "reopen":
+		if o.Size > 0 {
+			return fmt.Sprintf("reopen(with cap %d)", o.Size)
+		}
 		return "reopen"
 	}
 	return fmt.Sprintf("%s(%s,%s)", o.Kind, storeBoxes[o.MB], o.Ref)
@@ -191,6 +194,11 @@ func (r *storeRun) applyOp(o sop, check bool) (probs [][2]string, changed bool) 
 	bad := func(key, detail string) { probs = append(probs, [2]string{be + "|" + key, detail}) }
 	switch o.Kind {
 	case "reopen":
+		if o.Size > 0 {
+			// the restart comes with a new configuration: a (lower) message cap
+			r.h.Spec.Cap = o.Size
+			r.mo.Cap = o.Size
+		}
 		r.h.Reopen()
 		if r.beforeRestart == nil {
 			r.beforeRestart = map[string]bool{}
